@@ -93,9 +93,10 @@ Init == /\ file \in SeqsUpTo(MaxLen)
 
 Min(a, b) == IF a < b THEN a ELSE b
 
-ReadBlock ==
+\* one read that delivers up to n bytes
+ReadBlockN(n) ==
   /\ st = "run"
-  /\ LET hi    == Min(pos + bs, Len(file))
+  /\ LET hi    == Min(pos + n, Len(file))
          chunk == SubSeq(file, pos + 1, hi)
          eof   == chunk = <<>>
          d     == DecBuf(carry \o chunk)
@@ -109,6 +110,7 @@ ReadBlock ==
              /\ started' = (started \/ d.chars # <<>>)
              /\ st' = "run"
   /\ UNCHANGED <<file, bs>>
+ReadBlock == ReadBlockN(bs)
 
 Next == ReadBlock
 Spec == Init /\ [][Next]_vars
@@ -123,6 +125,10 @@ NeverAltered == (st # "err" /\ Decode1(file) # Invalid) =>
                    /\ out = SubSeq(Decode1(file), 1, Len(out))
 \* bytes are conserved: consumed bytes = bytes of output characters (+ stripped BOM) + carry
 CarryIsTail == st = "run" => carry = SubSeq(file, pos - Len(carry) + 1, pos)
+\* decoding distributes over concatenation of valid files (what lets the harness TILE a vector into a file of many blocks)
+ConcatLemma == pos = 0 => \A p \in 0..Len(file) :
+                  LET a == SubSeq(file, 1, p)  b == SubSeq(file, p + 1, Len(file)) IN
+                  (DecAll(a) # Invalid /\ DecAll(b) # Invalid) => DecAll(file) = DecAll(a) \o DecAll(b)
 TypeOK == /\ pos \in 0..Len(file) /\ st \in {"run", "done", "err"} /\ Len(carry) <= 3
 
 (* ---------- vector emission (one per file, at the terminal state of block size EmitBS) ------ *)
